@@ -208,7 +208,7 @@ def run(ctx):
         if not guarded:
             rf.violate(fn.id, "filter-clause-dropped", f"an AggregateExpr is built at line {ln} without any branch on the parsed `FILTER (WHERE …)` clause: the clause is accepted by "
                        "the parser and silently ignored, `count(*) FILTER (WHERE x > 5)` counts every row", rec["file"], ln)
-    return [r, rule_valid(facts, impls), rule_simul(facts), rf, rule_nanorder(facts), rule_hashcanon(facts), rule_dircap(facts)]
+    return [r, rule_valid(facts, impls), rule_simul(facts), rf, rule_nanorder(facts), rule_hashcanon(facts), rule_dircap(facts), rule_distinctorder(facts)]
 
 
 def rule_nanorder(facts):
@@ -318,6 +318,46 @@ def rule_dircap(facts):
     return r
 
 
+def rule_distinctorder(facts):
+    """SELECT DISTINCT removes duplicates over the projected columns. ORDER BY expressions that are not select expressions are appended
+    to the projection as helper columns; under DISTINCT the helper would become part of what is compared and the "distinct" output
+    contains duplicates (`select distinct x%3 .. order by x` returned 10 rows). Decided on the ORDER BY binder: the append of a helper
+    projection is dominated by a branch whose condition is computed from the select list's DISTINCT modifier."""
+    from .mir import switch_edges
+    r = RuleResult("C07-DISTINCTORDER", "ORDER BY appends a helper projection only after consulting the select list's DISTINCT modifier", floor=1)
+    recs = facts.fns_matching(lambda i: "bind_modifier::ModifierBinder" in i and "bind_order_by" in i)
+    sites = 0
+    for rec in recs:
+        fn = Fn(rec)
+        apps = [c for c in fn.calls() if c.name.endswith("SelectList::append_projection")]
+        if not apps:
+            continue
+        guards = []
+        for b in range(fn.n):
+            t = fn.term(b)
+            if t[0] != "switch" or t[1][0] not in ("c", "m"):
+                continue
+            o = fn.origin(t[1], at=b)
+            txt = str(o)
+            if o[0] == "call" and o[1].name.endswith("::eq") or o[0] == "call" and o[1].name.endswith("::ne"):
+                txt = str([fn.origin(a, at=o[1].bb) for a in o[1].args if a[0] in ("c", "m")])
+            if "'distinct_modifier'" in txt:
+                guards.append(b)
+        for a in apps:
+            sites += 1
+            # the test may be the first operand of a `&&`: the append is then reached over two of its edges, so block dominance
+            ok = any(fn.dominates(g, a.bb) and g != a.bb for g in guards)
+            r.functions.add(fn.id)
+            r.call_sites += 1
+            r.inst({"fn": fn.id, "line": a.line, "distinct_consulted": ok}, ok)
+            if not ok:
+                r.violate(fn.id, "order-by-helper-under-distinct", "an ORDER BY expression is appended to the projection without a look at the DISTINCT modifier: under SELECT "
+                          "DISTINCT the helper column takes part in the duplicate elimination and duplicates are returned", rec["file"], a.line)
+    if sites == 0:
+        r.missing_anchor("ModifierBinder::bind_order_by: append_projection call")
+    return r
+
+
 CLAIM = {
     "text": "Sibling/field-effect rule on MIR for every AggregateState implementation in the workspace: W(update) ⊆ W(merge) and "
             "W(update) ⊆ R(merge, other). This is the structural precondition for aggregates to be independent of how rows are split over "
@@ -325,7 +365,8 @@ CLAIM = {
             "compares with or takes the other state's value does so only behind the other state's validity flag (an empty partial state "
             "holds the type's default value, not a minimum). Plus a simultaneity rule over all 25 merge implementations: a field of self that has already been overwritten is never read to compute a different field (the merged state is a function of the two input states; e.g. the Welford delta must use the input mean)."
             " Plus AGGFILTER (the aggregate FILTER clause is translated or refused, never dropped), NANORDER (the min/max replace decision consults self-comparison, so a NaN's arrival order does not matter) and HASHCANON (float hashing canonicalises the sign of zero)."
-            " Plus DIRCAP: every offset computation of the aggregate hash directory uses the capacity of the array it indexes.",
+            " Plus DIRCAP: every offset computation of the aggregate hash directory uses the capacity of the array it indexes."
+            " Plus DISTINCTORDER: ORDER BY appends a helper projection only after consulting the DISTINCT modifier.",
     "note": "trusted: rustc MIR; a &mut borrow of a field counts as a write, any mention as a read; whole-state operations (swap/assign) cover all fields",
     "technique": "static analysis: MIR field-effect summaries + sibling agreement (rustc_private driver)",
 }
